@@ -1,8 +1,10 @@
 import Pycoin.Spec.Consensus
+import Pycoin.Props.C03M
 import Pycoin.Proofs.SpecScriptNum
 /-!
-C03 — spec-side sanity theorems (builder "vm").  The refinement theorems (model of pycoin's VM = this spec) are written by the
-"vmmodel" builder; on merge that file replaces/absorbs this one.  These few facts are about the consensus specification alone.
+C03 — spec-side sanity theorems (builder "vm").  These few facts (`C03_spec_*`) are about the consensus specification alone.
+The refinement theorems (model of pycoin's VM = this spec, builder "vmmodel") are proved in `Props/C03M.lean` + `Proofs/VM*.lean` and
+re-stated at the end of this file as `C03_model_*` (same statements, proved by the originals).
 -/
 namespace Pycoin.Spec.Consensus
 
@@ -145,3 +147,189 @@ theorem C03_spec_flags_permitted_examples :
   decide
 
 end Pycoin.Spec.Consensus
+
+/-! ## the model of pycoin's VM refines this specification (`Props/C03M.lean`) -/
+namespace Pycoin.VM
+open Pycoin.Spec Pycoin.Spec.Consensus CondStack
+
+/-- pycoin's `(true_count, false_count)` is `absC vfExec`, and `absC` is the abstraction of DESIGN §6:
+lengths of the leading run of `true`s / of what follows, seen from the outermost conditional -/
+theorem C03_model_condstack_abs (vf : List Bool) :
+    absC vf = ⟨(vf.reverse.takeWhile id).length, (vf.reverse.dropWhile id).length⟩ := by
+  first | exact C03M_condstack_abs .. | (apply C03M_condstack_abs <;> assumption)
+
+/-- `all_if_true()` is Core's `fExec` -/
+theorem C03_model_condstack_allIfTrue (vf : List Bool) : (absC vf).allIfTrue = vf.all id := by
+  first | exact C03M_condstack_allIfTrue .. | (apply C03M_condstack_allIfTrue <;> assumption)
+
+/-- one IF/NOTIF/ELSE/ENDIF: the abstraction commutes, and the error cases (ELSE/ENDIF on an empty stack) coincide -/
+theorem C03_model_condstack_step (vf : List Bool) (op : CondOp) :
+    pyStep (absC vf) op = (coreStep vf op).map absC := by
+  first | exact C03M_condstack_step .. | (apply C03M_condstack_step <;> assumption)
+
+/-- C03.condstack_refines: for **every** sequence of conditional operations, from the empty stack -/
+theorem C03_model_condstack_refines (ops : List CondOp) :
+    runPy {} ops = (runCore [] ops).map absC := by
+  first | exact C03M_condstack_refines .. | (apply C03M_condstack_refines <;> assumption)
+
+/-- `check_final_state` accepts exactly the empty `vfExec` -/
+theorem C03_model_condstack_final (vf : List Bool) : (absC vf).checkFinalState = .ok () ↔ vf = [] := by
+  first | exact C03M_condstack_final .. | (apply C03M_condstack_final <;> assumption)
+
+/-- `int_from_script_bytes(s, False)` = `CScriptNum::set_vch` on inputs of any length -/
+theorem C03_model_scriptnum_decode (s : Bytes) : intFromScriptBytes s false = .ok (scriptNumDecode s) := by
+  first | exact C03M_scriptnum_decode .. | (apply C03M_scriptnum_decode <;> assumption)
+
+/-- with `require_minimal` the code raises exactly when Core's minimal-encoding test fails -/
+theorem C03_model_scriptnum_minimal (s : Bytes) :
+    intFromScriptBytes s true =
+      if isMinimalNum s then .ok (scriptNumDecode s) else .error (scriptErr Gen.VM.errno_UNKNOWN_ERROR) := by
+  first | exact C03M_scriptnum_minimal .. | (apply C03M_scriptnum_minimal <;> assumption)
+
+/-- where the code applies the 4-byte bound (`pop_check_bounds`: every arithmetic opcode except WITHIN, PICK, ROLL,
+0NOTEQUAL and the CHECKMULTISIG counts), decoding is `CScriptNum(vch, fRequireMinimal, 4)` up to the error tag -/
+theorem C03_model_scriptnum_bounded (s : Bytes) (m : Bool) (h : s.length ≤ 4) :
+    (intFromScriptBytes s m).toOption = (scriptNum s m 4).toOption := by
+  first | exact C03M_scriptnum_bounded .. | (apply C03M_scriptnum_bounded <;> assumption)
+
+/-- `int_to_script_bytes` = `CScriptNum::serialize` -/
+theorem C03_model_scriptnum_encode (v : Int) : intToScriptBytes v = scriptNumEncode v := by
+  first | exact C03M_scriptnum_encode .. | (apply C03M_scriptnum_encode <;> assumption)
+
+/-- `bool_from_script_bytes(v)` (the form every opcode but 0NOTEQUAL uses) = `CastToBool` -/
+theorem C03_model_castToBool_eq (v : Bytes) : boolFromScriptBytes v false = .ok (castToBool v) := by
+  first | exact C03M_castToBool_eq .. | (apply C03M_castToBool_eq <;> assumption)
+
+/-- `bool_from_script_bytes(v, require_minimal=True)` never returns (it compares an `int` with `bytes`, §8 row 14).
+No opcode calls it this way any more since the repair b80974d (`OP_0NOTEQUAL` used to fail on every operand under
+MINIMALDATA). -/
+theorem C03_model_boolMinimal_dead (v : Bytes) : ∃ e, boolFromScriptBytes v true = .error e := by
+  first | exact C03M_boolMinimal_dead .. | (apply C03M_boolMinimal_dead <;> assumption)
+
+/-- C03.getOp_refines: for every script, every `pc` inside it and both settings of `verify_minimal_data`, `get_opcode`
+returns what `GetScriptOp` + `CheckMinimalPush` return (truncation ⇒ `is_ok = False`, whence BAD_OPCODE even in dead
+branches; MINIMALDATA exactly when `CheckMinimalPush` fails; `OP_1NEGATE`/`OP_1..16` carry `CScriptNum(n).serialize()`).
+Full since the repairs `fix: … length field is cut short` (bc1455a) and `fix: minimal-push check …` (fc90d57): before
+them the statement was refuted by `4c` at the end of a script and by the 256-byte PUSHDATA2 (§8 row 29). -/
+theorem C03_model_getOp_refines (script : Bytes) (pc : Nat) (vm : Bool) (hpc : pc < script.length) :
+    GetOpRefines script pc vm := by
+  first | exact C03M_getOp_refines .. | (apply C03M_getOp_refines <;> assumption)
+
+section
+variable (chk : Bytes → Bytes → Bytes → Bool → Bool) (cfg : Config)
+/-- C03.step_eq, stack opcodes TOALTSTACK … TUCK (IFDUP: since the repair f08f560; PICK/ROLL: 4-byte operand since 09cb70c) -/
+theorem C03_model_step_eq_stack : ∀ op ∈ [0x6b, 0x6c, 0x6d, 0x6e, 0x6f, 0x70, 0x71, 0x72, 0x73, 0x74, 0x75, 0x76, 0x77, 0x78, 0x79, 0x7a, 0x7b, 0x7c, 0x7d], HandlerAgrees chk cfg op := by
+  first | exact C03M_step_eq_stack .. | (apply C03M_step_eq_stack <;> assumption)
+
+/-- C03.step_eq, SIZE, EQUAL, EQUALVERIFY (the disabled splice/bitwise opcodes: `C03M_step_eq_disabled`) -/
+theorem C03_model_step_eq_splice : ∀ op ∈ [0x82, 0x87, 0x88], HandlerAgrees chk cfg op := by
+  first | exact C03M_step_eq_splice .. | (apply C03M_step_eq_splice <;> assumption)
+
+/-- C03.step_eq, numeric opcodes 1ADD … WITHIN: 4-byte `CScriptNum` operands, minimal-encoding flag, results re-encoded (0NOTEQUAL: since b80974d; WITHIN: since 09cb70c) -/
+theorem C03_model_step_eq_arith : ∀ op ∈ [0x8b, 0x8c, 0x8f, 0x90, 0x91, 0x92, 0x93, 0x94, 0x9a, 0x9b, 0x9c, 0x9d, 0x9e, 0x9f, 0xa0, 0xa1, 0xa2, 0xa3, 0xa4, 0xa5], HandlerAgrees chk cfg op := by
+  first | exact C03M_step_eq_arith .. | (apply C03M_step_eq_arith <;> assumption)
+
+/-- C03.step_eq, RIPEMD160, SHA1, SHA256, HASH160, HASH256 (hash functions shared with the specification) and CODESEPARATOR -/
+theorem C03_model_step_eq_crypto : ∀ op ∈ [0xa6, 0xa7, 0xa8, 0xa9, 0xaa, 0xab], HandlerAgrees chk cfg op := by
+  first | exact C03M_step_eq_crypto .. | (apply C03M_step_eq_crypto <;> assumption)
+
+/-- C03.step_eq, CHECKLOCKTIMEVERIFY / CHECKSEQUENCEVERIFY for every transaction context and flag setting (operand left untouched since b47cae5) -/
+theorem C03_model_step_eq_locktime : ∀ op ∈ [0xb1, 0xb2], HandlerAgrees chk cfg op := by
+  first | exact C03M_step_eq_locktime .. | (apply C03M_step_eq_locktime <;> assumption)
+
+/-- C03.step_eq, flow control: IF / NOTIF in executed **and** dead branches (`f` is Core's `fExec`), with the flag
+pre-condition under which pycoin builds its VMs (MINIMALIF only in witness scripts) -/
+theorem C03_model_step_eq_if (rev : Bool) (hw : hasFlag cfg.flags Gen.VM.VERIFY_MINIMALIF = true → cfg.witness = true) :
+    ∃ h, Gen.VM.lookupList[if rev then 0x64 else 0x63]? = some (h, true) ∧
+      ∀ (st : Consensus.State) (pc' : Nat),
+        Agree pc' (runHandler (stdEnv chk) cfg h (absS st pc'))
+          (Consensus.execOp (specEnv cfg) st (st.vfExec.all id) (if rev then 0x64 else 0x63) pc') := by
+  first | exact C03M_step_eq_if .. | (apply C03M_step_eq_if <;> assumption)
+
+/-- ELSE / ENDIF / VERIFY / RETURN / NOP -/
+theorem C03_model_step_eq_flow : ∀ op ∈ [0x61, 0x67, 0x68, 0x69, 0x6a], HandlerAgrees chk cfg op := by
+  first | exact C03M_step_eq_flow .. | (apply C03M_step_eq_flow <;> assumption)
+
+/-- the upgradable NOPs (NOP1, NOP4 … NOP10) -/
+theorem C03_model_step_eq_nops : ∀ op ∈ [0xb0, 0xb3, 0xb4, 0xb5, 0xb6, 0xb7, 0xb8, 0xb9], HandlerAgrees chk cfg op := by
+  first | exact C03M_step_eq_nops .. | (apply C03M_step_eq_nops <;> assumption)
+
+/-- reserved and undefined opcodes: the generated table holds a BAD_OPCODE-raising function exactly where Core's switch
+falls through to `SCRIPT_ERR_BAD_OPCODE`: OP_RESERVED, OP_VER, OP_VERIF, OP_VERNOTIF, OP_RESERVED1/2, 0xba … 0xff -/
+theorem C03_model_step_eq_bad (op : Nat)
+    (hop : op = 0x50 ∨ op = 0x62 ∨ op = 0x65 ∨ op = 0x66 ∨ op = 0x89 ∨ op = 0x8a ∨ (0xba ≤ op ∧ op < 256)) :
+    (∃ h oc, Gen.VM.lookupList[op]? = some (h, oc) ∧
+      ∀ s, op ≠ 0x50 ∨ s.cond.allIfTrue = true → ∃ e, runHandler (stdEnv chk) cfg h s = .error e) ∧
+    ∀ (st : Consensus.State) (pc' : Nat) (f : Bool), (Consensus.execOp (specEnv cfg) st f op pc').toOption = none := by
+  first | exact C03M_step_eq_bad .. | (apply C03M_step_eq_bad <;> assumption)
+
+/-- disabled opcodes: the table holds `make_bad_opcode(…, even_outside_conditional=True, err=DISABLED_OPCODE)` exactly
+at the opcodes `EvalScript` rejects wherever they occur -/
+theorem C03_model_step_eq_disabled : ∀ op, op < 256 →
+    (Consensus.isDisabledOpcode op = true ↔
+      Gen.VM.lookupList[op]? = some (.badOpcode Gen.VM.errno_DISABLED_OPCODE, true)) := by
+  first | exact C03M_step_eq_disabled .. | (apply C03M_step_eq_disabled <;> assumption)
+
+/-- the `outside_conditional` attribute is set exactly on the opcodes Core's loop looks at in dead branches:
+`OP_IF … OP_ENDIF`, the disabled opcodes, and OP_RESERVED (whose handler then only un-counts itself) -/
+theorem C03_model_outside_conditional : ∀ op, op < 256 →
+    ((Gen.VM.lookupList[op]?).map (·.2) =
+      some ((Consensus.OP_IF ≤ op && op ≤ Consensus.OP_ENDIF) || Consensus.isDisabledOpcode op || op == 0x50)) := by
+  first | exact C03M_outside_conditional .. | (apply C03M_outside_conditional <;> assumption)
+
+end
+section
+variable (chk : Bytes → Bytes → Bytes → Bool → Bool) (cfg : Config)
+/-- C03.step_eq at the level of `VM.eval_instruction`: for **every** Core state `st`, every position `pc` inside the
+script and every opcode outside the CHECKSIG family, one `eval_instruction` on the pycoin state representing `st`
+(decode through the generated decoder table, push-size limit, op count incl. OP_RESERVED un-counting itself, dispatch
+through the generated `INSTRUCTION_LOOKUP`, `outside_conditional`, op-count and stack-size limits) and one iteration of
+Core's `EvalScript` loop (`GetScriptOp` + `stepM`) both fail or both succeed with corresponding states.
+Extra hypotheses (hence `_partial`): the opcode is not CHECKSIG(VERIFY)/CHECKMULTISIG(VERIFY) (the model of those is
+tied to the code by correspondence only), and MINIMALIF is only given to witness VMs (`check_solution` strips it
+otherwise).  An undecodable instruction is an error on both sides. -/
+theorem C03_model_step_eq_partial (st : Consensus.State) (pc : Nat) (hpc : pc < cfg.script.length)
+    (hw : hasFlag cfg.flags Gen.VM.VERIFY_MINIMALIF = true → cfg.witness = true) :
+    match getScriptOp (cfg.script.drop pc) with
+    | none => (evalInstruction (stdEnv chk) cfg (absS st pc)).toOption = none
+    | some (op, data, _, size) =>
+      ¬ (0xac ≤ op ∧ op ≤ 0xaf) →
+        Agree (pc + size) (evalInstruction (stdEnv chk) cfg (absS st pc)) (specStep chk cfg st op data (pc + size)) := by
+  first | exact C03M_step_eq_partial .. | (apply C03M_step_eq_partial <;> assumption)
+
+/-- C03.eval_eq: `VM(script, …, initial_stack).eval_script()` and Core's `EvalScript` give the same verdict and, on
+success, the same final stack — script-size limit, op-count, stack-size, conditional balance at the end included;
+by induction on the loop (`pc` strictly increases).  For all scripts of any length whose instructions are outside the
+CHECKSIG family (`noSigOps`), all initial stacks, flags, transaction contexts and both signature versions. -/
+theorem C03_model_eval_eq_partial (hw : hasFlag cfg.flags Gen.VM.VERIFY_MINIMALIF = true → cfg.witness = true)
+    (hns : noSigOps cfg.script.length cfg.script = true) (stack : List Bytes) :
+    (evalScript (stdEnv chk) cfg stack).toOption.map (·.stack) =
+      (Consensus.evalScript (specChk chk) stack cfg.script (Flags.ofBits cfg.flags)
+        ⟨cfg.ctx.version, cfg.ctx.lockTime, cfg.ctx.sequence⟩ (if cfg.witness then .witnessV0 else .base)).toOption := by
+  first | exact C03M_eval_eq_partial .. | (apply C03M_eval_eq_partial <;> assumption)
+
+end
+/-- `check_valid_signature` is `IsValidSignatureEncoding` (BIP66 strict DER incl. the hash-type byte) on **every** byte string:
+SIG_DER is raised exactly when Core's predicate is false -/
+theorem C03_model_sigenc_der (sig : Bytes) :
+    checkValidSignature sig = if isValidSignatureEncoding sig then .ok () else .error sigDer := by
+  first | exact C03M_sigenc_der .. | (apply C03M_sigenc_der <;> assumption)
+
+/-- `check_defined_hashtype_signature` is `IsDefinedHashtypeSignature` (non-empty signature: the only way it is called) -/
+theorem C03_model_sigenc_hashtype (sig : Bytes) (h : sig ≠ []) :
+    checkDefinedHashtypeSignature sig =
+      if isDefinedHashtypeSignature sig then .ok () else .error (scriptErr Gen.VM.errno_SIG_HASHTYPE) := by
+  first | exact C03M_sigenc_hashtype .. | (apply C03M_sigenc_hashtype <;> assumption)
+
+/-- `check_public_key_encoding` (STRICTENC) is `IsCompressedOrUncompressedPubKey` -/
+theorem C03_model_pubkey_encoding (blob : Bytes) :
+    checkPublicKeyEncoding blob =
+      if isCompressedOrUncompressedPubKey blob then .ok () else .error (scriptErr Gen.VM.errno_PUBKEYTYPE) := by
+  first | exact C03M_pubkey_encoding .. | (apply C03M_pubkey_encoding <;> assumption)
+
+/-- the WITNESS_PUBKEYTYPE test of `checksig` is `!IsCompressedPubKey` -/
+theorem C03_model_pubkey_compressed (blob : Bytes) :
+    (decide (blob.length ≠ 33) || !(decide (blob.head? = some 2) || decide (blob.head? = some 3))) = !isCompressedPubKey blob := by
+  first | exact C03M_pubkey_compressed .. | (apply C03M_pubkey_compressed <;> assumption)
+
+end Pycoin.VM
